@@ -35,6 +35,7 @@ class Unit:
         self.name, self.path, self.rel, self.src = name, path, rel, src
         self.tree = ast.parse(src, path)
         from . import alpha
+        self.logging_stripped = alpha.strip_logging(self.tree)
         self.alpha_renamed = alpha.apply(self.tree, alpha.load().get(name)) if not os.environ.get("PV_NO_ALPHA") else 0
         self.is_pkg = path.endswith("__init__.py")
         self.imports = {}  # local name -> (module, attr|None)
